@@ -63,20 +63,23 @@ def oracle_fwd_grad(ck, dims, m, J, filt, shape):
         padded = m in (1, 4, 6) and any(pad_total(n, L) > 0 for n in sh + sw)
         short = per_short_fwd(sh, L, m) or per_short_fwd(sw, L, m)
     kk = KF_AFB if padded else (KF_PER if short else None)
+    from ..gradcheck import pull_variants
+    g = None
     try:
-        (g,) = torch.autograd.grad(outs, x, cots)
+        for label, eff, grads in pull_variants(rng, outs, [x], lambda o: T(gen.int_tensor(rng, tuple(o.shape)))):
+            g = grads[0] if grads[0] is not None else torch.zeros_like(x)
+            want = Jm @ flat(eff)
+            if not torch.equal(g.reshape(-1), want):
+                idx = int(torch.nonzero(g.reshape(-1) != want)[0])
+                ck.fail(desc + ' [%s]: grad[%d] = %r, J^T g = %r' % (label, idx, float(g.reshape(-1)[idx]), float(want[idx])), replay, known_key=kk)
+                return 'diff'
     except Exception as e:
         ck.fail(desc + ': backward raises %s: %s' % (type(e).__name__, str(e)[:120]), replay, known_key=kk)
         return 'raise'
-    want = Jm @ flat(cots)
-    if torch.equal(g.reshape(-1), want):
-        ck.oracle_ok(('fwd', dims, m, J, L, tuple(shape)), group='fwd-grad-%dd' % dims,
-                     sample={'what': 'autograd(DWT%sForward) == J^T g' % ('1D' if dims == 1 else ''), 'mode': gen.MODE_NAME[m], 'J': J, 'L': L, 'shape': list(shape),
-                             'grad_head': [float(v) for v in g.reshape(-1)[:4]]})
-        return None
-    idx = int(torch.nonzero(g.reshape(-1) != want)[0])
-    ck.fail(desc + ': grad[%d] = %r, J^T g = %r' % (idx, float(g.reshape(-1)[idx]), float(want[idx])), replay, known_key=kk)
-    return 'diff'
+    ck.oracle_ok(('fwd', dims, m, J, L, tuple(shape)), group='fwd-grad-%dd' % dims,
+                 sample={'what': 'autograd(DWT%sForward) == J^T g (all outputs, subsets of outputs, repeated pull-backs)' % ('1D' if dims == 1 else ''), 'mode': gen.MODE_NAME[m], 'J': J, 'L': L, 'shape': list(shape),
+                         'grad_head': [float(v) for v in g.reshape(-1)[:4]]})
+    return None
 
 
 def oracle_inv_grad(ck, dims, m, J, filt, size, mask):
@@ -109,32 +112,38 @@ def oracle_inv_grad(ck, dims, m, J, filt, size, mask):
     short = per_short_inv(lo_sizes, L, m) or (m == 2 and any(evenlen(2 * n) < L for n in lo_sizes))
     kk = KF_SFB if padded else (KF_PER if short else None)
     need = [t for t in ins if t.requires_grad]
+    from ..gradcheck import pull_variants
+    # Jacobian blocks from the forward pass of the inverse on unit impulses: blocks[i] (n_i x n_out)
+    blocks = {}
+    with torch.no_grad():
+        for i, t in enumerate(ins):
+            if not t.requires_grad:
+                continue
+            base = [torch.zeros(tuple(u.shape), dtype=u.dtype) for u in ins]
+            rows = []
+            for k in range(t.numel()):
+                base[i].reshape(-1)[k] = 1
+                rows.append(inv((base[0], base[1:])).reshape(-1).clone())
+                base[i].reshape(-1)[k] = 0
+            blocks[i] = torch.stack(rows)
     try:
-        grads = torch.autograd.grad([y], need, [g], allow_unused=True)
+        for label, eff, grads in pull_variants(rng, [y], need, lambda o: T(gen.int_tensor(rng, tuple(o.shape))), repeats=3):
+            it = iter(grads)
+            for i, t in enumerate(ins):
+                if not t.requires_grad:
+                    continue
+                gi = next(it)
+                if gi is None:
+                    ck.fail(desc + ' [%s]: argument %d requires grad but received None' % (label, i), replay, known_key=kk)
+                    return 'none'
+                want = blocks[i] @ eff[0].reshape(-1)
+                if not torch.equal(gi.reshape(-1), want):
+                    idx = int(torch.nonzero(gi.reshape(-1) != want)[0])
+                    ck.fail(desc + ' [%s]: argument %d grad[%d] = %r, J^T g = %r' % (label, i, idx, float(gi.reshape(-1)[idx]), float(want[idx])), replay, known_key=kk)
+                    return 'diff'
     except Exception as e:
         ck.fail(desc + ': backward raises %s: %s' % (type(e).__name__, str(e)[:120]), replay, known_key=kk)
         return 'raise'
-    # Jacobian blocks from the forward pass of the inverse on unit impulses
-    it = iter(grads)
-    for i, t in enumerate(ins):
-        if not t.requires_grad:
-            continue
-        gi = next(it)
-        if gi is None:
-            ck.fail(desc + ': argument %d requires grad but received None' % i, replay, known_key=kk)
-            return 'none'
-        n_i = t.numel()
-        with torch.no_grad():
-            base = [torch.zeros(tuple(u.shape), dtype=u.dtype) for u in ins]
-            want = torch.zeros(n_i)
-            for k in range(n_i):
-                base[i].reshape(-1)[k] = 1
-                want[k] = (inv((base[0], base[1:])) * g).sum()
-                base[i].reshape(-1)[k] = 0
-        if not torch.equal(gi.reshape(-1), want):
-            idx = int(torch.nonzero(gi.reshape(-1) != want)[0])
-            ck.fail(desc + ': argument %d grad[%d] = %r, J^T g = %r' % (i, idx, float(gi.reshape(-1)[idx]), float(want[idx])), replay, known_key=kk)
-            return 'diff'
     ck.oracle_ok(('inv', dims, m, J, L, str(size), mask), group='inv-grad-%dd' % dims,
                  sample={'what': 'autograd(DWT%sInverse) == J^T g for every argument requiring grad' % ('1D' if dims == 1 else ''), 'mode': gen.MODE_NAME[m],
                          'J': J, 'L': L, 'size': size, 'mask': bin(mask)})
